@@ -755,6 +755,22 @@ def call_ext(E, st, mod, name, args, kwargs, node=None):
         if name == "floor":
             return ok(st, V(INT, fl))
         return ok(st, V(INT, z3.If(z3.ToReal(fl) == a.t, fl, fl + 1)))
+    if full == "copy.copy" and len(args) == 1 and args[0].kind.tag == "ref":
+        # shallow copy of an instance: a new object of the same class whose fields (declared in the shape, ghost
+        # fields included) hold the same values / references
+        src = args[0]
+        cname = src.kind[1]
+        if len(E.subclasses(cname)) != 1:
+            raise Unsupported("copy.copy of %s (has subclasses)" % cname)
+        s2, new = E.new_object(st, cname)
+        outs = [s2]
+        for f, fk in sorted(E.R.all_fields(cname, E.P).items()):
+            nxt = []
+            for s3 in outs:
+                for s4, v in E.read_field(s3, src, f, fk):
+                    nxt.append(E.write_field(s4, new, f, fk, v))
+            outs = nxt
+        return [Out("ok", s5, new) for s5 in outs]
     if full == "sys.exit":
         s2, e = E.mk_exc(st, "SystemExit", args)
         return [Out("raise", s2, e)]
